@@ -665,7 +665,7 @@ func checkCmd(p *propCfg, tier, repo string, writeEvidence bool) int {
 	nW := workersEnv()
 	dir := filepath.Join(scratch, p.ID, "out")
 	var wrapCh chan map[string]any
-	if (p.ID == "C01" || p.ID == "C11") && tier == "thorough" {
+	if (p.ID == "C01" || p.ID == "C11" || p.ID == "C03") && tier == "thorough" {
 		wrapCh = make(chan map[string]any, 1)
 		go func() { wrapCh <- realWrap(p, dir) }()
 	}
@@ -876,7 +876,7 @@ func checkCmd(p *propCfg, tier, repo string, writeEvidence bool) int {
 		if f, _ := wr["failure"].(string); f != "" {
 			path := filepath.Join(rdir, p.ID+"-wrap_sequential.json")
 			writeJSON(path, wr)
-			wsite := map[string]string{"C01": "ringz.(*SyncRing)", "C11": "listz.(*SyncList)"}[p.ID]
+			wsite := map[string]string{"C01": "ringz.(*SyncRing)", "C11": "listz.(*SyncList)", "C03": "setz.(*RoaringBitmap)"}[p.ID]
 			fmt.Printf("VIOLATION property=%s replay=%s\n  class=wrap_sequential site=%s detail=%s\n", p.ID, path, wsite, f)
 			reported = append(reported, map[string]any{"class": "wrap_sequential", "site": wsite, "detail": f, "replay": path})
 			if exit == 0 {
